@@ -4,5 +4,6 @@ CONSTANTS Keys = {1, 2, 3}
           BatchVals = {0, 1, 2, 3}
           ThrVals = {0, 1, 2, 3}
           BadSets = {{}, {3}, {1, 2}, {1, 2, 3}}
+          PlanModes = {"same", "set", "setnil"}
 INVARIANTS Emit
 CHECK_DEADLOCK FALSE
